@@ -396,6 +396,12 @@ def run_kani_harness(h, src, target_dir, logdir, playback=False):
         else:
             r["verdict"] = "pass"
             r["why"] = ""
+    elif h.expect_cover == "none" and r["covers"] >= 1 and r["covers_sat"] >= 1:
+        # should_panic harness whose cover AFTER the call is reachable: the call returned a value where it must not
+        r["verdict"] = "fail"
+        r["why"] = "a value was returned where the call must not return (cover after the call is reachable)"
+        r["failed_checks"] = [{"desc": "MUST-BE-UNREACHABLE cover satisfied", "loc": h.name}]
+        r["returns_where_it_must_not"] = True
     elif r["failed"] and r["unwind_fail"] and not h.unwind_is_violation and all("unwinding assertion" in f["desc"] for f in r["failed_checks"]):
         r["verdict"] = "error"
         r["why"] = "unwinding bound of the harness too small for the current code: " + "; ".join(f["loc"] for f in r["failed_checks"][:3])
@@ -684,6 +690,14 @@ def run_property(prop, spec, tier, seed, only=None, keep=False, jobs=None):
                     k = match_known(prop, h.name, r)
                     if k:
                         r["known_finding"] = k["id"]
+                    elif r.get("returns_where_it_must_not") and not [c for c in r.get("failed_checks", []) if "MUST-BE" not in c["desc"]]:
+                        # nothing to play back (no failed check, only a reachable cover): report with the log as replay
+                        rdir = os.path.join(REPLAY_DIR, prop, "%s-cover" % h.name)
+                        os.makedirs(rdir, exist_ok=True)
+                        shutil.copy(r["log"], os.path.join(rdir, "kani.log"))
+                        r["replay"] = rdir
+                        r["reproduced"] = True
+                        r["replay_note"] = "cover after the call SATISFIED (solver witness that the call returns); see kani.log"
                     else:
                         rdir, reproduced, note = make_replay(prop, h, r, src, tdir, logdir)
                         r["replay"] = rdir
